@@ -148,6 +148,23 @@ func runC34(c *Ctx) []Obligation {
 			Barrier: []string{`^\(\*sync\.Map\)\.Store\(cs\.SealMap, `}, Target: CallTo(`SetWithoutLockAndSealCheck\(`), TargetMustExist: true,
 			Why: "an object is marked sealed before its final value is stored"},
 	}
+	// the store step is what keeps relays that raced past validation within the allowance: evidence that
+	// already holds max proofs is sealed when it is fetched for writing, and Set drops writes to sealed objects
+	const getE = `\(\*x/pocketcore/types\.CacheStorage\)\.Get\(storage, x/pocketcore/types\.KeyForEvidence\(var:header, evidenceType\)#0, var:evidence\)`
+	rows = append(rows,
+		Row{Prop: P, ID: "getevidence.full-evidence-is-sealed", Fn: "x/pocketcore/types.GetEvidence",
+			Assume: []Lit{F(`^nonnil\(x/pocketcore/types\.KeyForEvidence\(var:header, evidenceType\)#1\)$`), T(`^` + getE + `#1$`), T(`^assert<x/pocketcore/types\.Evidence>\(` + getE + `#0\)#1$`),
+				F(`^\(\*x/pocketcore/types\.CacheStorage\)\.IsSealed\(storage, var:evidence\)$`), F(`^\(types\.BigInt\)\.Equal\(max, types\.ZeroInt\(\)\)$`),
+				F(`^lt\(var:evidence\.NumOfProofs, \(types\.BigInt\)\.Int64\(max\)\)$`)},
+			Barrier: []string{`^x/pocketcore/types\.SealEvidence\(var:evidence, storage\)`}, Target: TargetAnyReturn(),
+			Why: "evidence found with NumOfProofs >= max (max given) is sealed before it is handed out, exactly at the limit included"},
+		Row{Prop: P, ID: "getevidence.below-limit-not-sealed", Fn: "x/pocketcore/types.GetEvidence",
+			Assume: []Lit{T(`^lt\(var:evidence\.NumOfProofs, \(types\.BigInt\)\.Int64\(max\)\)$`)},
+			Target: CallTo(`^x/pocketcore/types\.SealEvidence\(`), TargetMustExist: true, Why: "evidence below the allowance stays open"},
+		Row{Prop: P, ID: "setproof.fetches-with-the-allowance", Fn: "x/pocketcore/types.SetProof",
+			Target: CallTo(`^x/pocketcore/types\.GetEvidence\(`).Except(`^x/pocketcore/types\.GetEvidence\(header, evidenceType, max, evidenceStore\)$`),
+			Why:    "the store step fetches the evidence with the caller's allowance (so that the seal-at-limit applies)"},
+	)
 	out = append(out, c.Rows(rows)...)
 	// (a field-level "accessed only under the lock" rule was tried and dropped:
 	// the DB handle is itself concurrency-safe and the one-off codec conversion
